@@ -804,6 +804,11 @@ func nearMiss(v any) any {
 	case string:
 		return v + "x"
 	case json.Number:
+		if len(v) > 20 {
+			// beyond 34 significant digits the decimal package keeps some 35-digit coefficients and rounds
+			// others; a near miss that far out is not a miss by value for every implementation
+			return json.Number("3")
+		}
 		return json.Number(string(v) + "1")
 	}
 	return v
